@@ -902,6 +902,55 @@ fn check_rewhiten_via_estimators(d: usize, p: &mut Partial) {
             rederive_oracle(&mut h, &mut math, &spy, &mut st, &x, &key, p);
         }
     }
+    // the diagonal transformation an estimate leaves behind is self-consistent, also when the
+    // window's scale lies beyond the estimator's clamp range: forward scale x inverse scale = 1,
+    // log-determinant = -sum ln(scale), whitened position = (x - mean) / scale
+    for grad_based in [false, true] {
+        for (sname, base) in [("unit", 1.0), ("tiny", 1e-12), ("huge", 1e12), ("mixed", 0.0)] {
+            let (mut math, _spy) = SpyMath::new(Dens::new(Target::std_normal(d)));
+            let mut strat = DiagAdaptStrategy::<M>::new(&mut math, DiagAdaptExpSettings { store_mass_matrix: false, use_grad_based_estimate: grad_based }, 0, 0);
+            let mut mm = nv::diag_mass_matrix_new(&mut math, false);
+            nv::diag_mass_matrix_set(&mut mm, &mut math, &col(&vec![1.0; d]), &col(&vec![0.0; d]));
+            let sc: Vec<f64> = (0..d).map(|i| if base == 0.0 { [1e-13, 1.0, 3e11][i % 3] } else { base * (1.0 + 0.5 * (i % 3) as f64) }).collect();
+            for (xx, _) in draws.iter().zip(&grads) {
+                let x2: Vec<f64> = (0..d).map(|i| xx[i] / sig[i] * sc[i]).collect();
+                let g2: Vec<f64> = (0..d).map(|i| -x2[i] / (sc[i] * sc[i])).collect();
+                let c = nv::draw_grad_collector(&mut math, &x2, &g2, true);
+                strat.update_estimators(&mut math, &c);
+            }
+            p.evaluations += 1;
+            if !strat.adapt(&mut math, &mut mm) {
+                p.count("rewhiten_adapt_did_not_change_the_transformation", 1);
+                continue;
+            }
+            let key = format!("diag-{}-{sname}/d{d}", if grad_based { "draw-grad" } else { "draw-only" });
+            let replay = json!({"path": key, "d": d});
+            let stds = nv::diag_mass_matrix_stds(&mm, &mut math);
+            let inv = nv::diag_mass_matrix_inv_stds(&mm, &mut math);
+            let mean = nv::diag_mass_matrix_mean(&mm, &mut math);
+            let logdet = nv::diag_mass_matrix_logdet(&mm);
+            if let Some(i) = (0..d).find(|&i| !((stds[i] * inv[i] - 1.0).abs() <= 1e-12)) {
+                p.violation(format!("C02/forward-and-inverse-scale-disagree/{key}"), format!("coordinate {i}: scale {:e} x inverse scale {:e} = {:e}", stds[i], inv[i], stds[i] * inv[i]), replay);
+                continue;
+            }
+            let ld: f64 = -stds.iter().map(|s| s.ln()).sum::<f64>();
+            if !mc_core::rel_close(logdet, ld, 1e-10, 1e-10) {
+                p.violation(format!("C02/log-determinant-not-of-the-scales/{key}"), format!("{logdet} vs -sum ln(scale) = {ld}"), replay);
+                continue;
+            }
+            let mut h = TransformedHamiltonian::new(&mut math, mm, KineticEnergyKind::Euclidean);
+            let xp: Vec<f64> = (0..d).map(|i| mean[i] + sc[i] * (0.3 + 0.1 * i as f64)).collect();
+            if let Ok(st) = h.init_state(&mut math, &xp) {
+                let y = nv::point_transformed_position(st.point(), &mut math).to_vec();
+                let y_ref: Vec<f64> = (0..d).map(|i| (xp[i] - mean[i]) / stds[i]).collect();
+                if max_rel(&y, &y_ref) > 1e-9 {
+                    p.violation(format!("C02/whitened-position-not-of-the-scales/{key}"), format!("{:?} vs {:?}", &y[..d.min(3)], &y_ref[..d.min(3)]), replay);
+                    continue;
+                }
+            }
+            p.class(format!("estimated-diag-consistent:{sname}"));
+        }
+    }
     if d >= 2 {
         for (name, cutoff) in [("default-cutoff", None), ("cutoff1", Some(1.0))] {
             let (mut math, spy) = SpyMath::new(Dens::new(Target::std_normal(d)));
